@@ -105,6 +105,9 @@ class Session:
                     except (ContractError, Unsupported) as e:
                         del V.vcs[n0:]
                         self.undecided.append(f"{item}: {e}")
+                    except Exception as e:  # noqa: BLE001  an engine failure on one function leaves that function undecided
+                        del V.vcs[n0:]
+                        self.undecided.append(f"{item}: engine error {type(e).__name__}: {str(e)[:200]}")
             except (ContractError, Unsupported) as e:
                 nm = item.get("name") if isinstance(item, dict) else item
                 self.undecided.append(f"{nm}: {e}")
@@ -138,14 +141,24 @@ class Session:
         return out
 
     def covers(self) -> dict[str, Any]:
-        vac = []
+        """Reachability of the function exits.  A single refuted cover is just an
+        infeasible combination of branches; vacuity (a contradictory `requires`,
+        invariant or axiom set) shows as *every* exit of a function - or every exit
+        reached through some loop - being refuted."""
+        infeasible = []
         n = 0
+        groups: dict[str, list[bool]] = {}
         for vc, r in zip(self.V.vcs, self.results):
             if vc.kind == "cover":
                 n += 1
-                if r.verdict == "unsat":
-                    vac.append(vc.name)
-        return {"covers": n, "vacuous": vac}
+                dead = r.verdict == "unsat"
+                if dead:
+                    infeasible.append(vc.name)
+                tags = [vc.func] + [f"{vc.func}@{p}" for p in vc.path.split("/") if p.startswith("loop") and p.endswith("X")]
+                for t in tags:
+                    groups.setdefault(t, []).append(dead)
+        vac = [g for g, ds in groups.items() if ds and all(ds)]
+        return {"covers": n, "vacuous": vac, "infeasible_paths": infeasible}
 
     def disagreements(self) -> list[str]:
         out = []
